@@ -920,7 +920,7 @@ theorem stepBlock_sound (e : Env) {m : Memory} (h : m.Inv) (idx : Nat) (b : Bloc
     (∀ rg src, (rg, src) ∈ b.scales.zip i.ssrc → rg.region ≠ e.constRegion →
       ConstHolds m rg.region rg.addr rg.len src) ∧
     (∀ li, lutIndex b.activation = some li →
-      ConstHolds m REGION_SHRAM (e.lutBase + li * 256) i.lutLen i.lutsrc) := by
+      ConstHolds m REGION_SHRAM (lutAddr e b li) (lutTableBytes b) i.lutsrc) := by
   have hall : ∀ r ∈ blockReads e b i, r.Ok m := (flatMap_readErr_nil_iff h idx _).mp herr
   unfold blockReads at hall
   simp only [List.mem_append] at hall
@@ -934,7 +934,7 @@ theorem stepBlock_sound (e : Env) {m : Memory} (h : m.Inv) (idx : Nat) (b : Bloc
   · intro rg src hmem
     exact constReads_ok (fun r hr => hall r (Or.inl (Or.inr hr))) hmem
   · intro li hli byte h1 h2
-    have hin : (⟨"LUT", REGION_SHRAM, constTid, [⟨e.lutBase + li * 256, i.lutLen, i.lutsrc - (e.lutBase + li * 256 : Nat)⟩], 0⟩ : Read)
+    have hin : (⟨"LUT", REGION_SHRAM, constTid, [⟨lutAddr e b li, lutTableBytes b, i.lutsrc - (lutAddr e b li : Nat)⟩], 0⟩ : Read)
         ∈ lutRead e b i := by
       unfold lutRead; rw [hli]; exact List.mem_cons_self
     have := hall _ (Or.inr hin) _ List.mem_cons_self byte ⟨h1, h2⟩
